@@ -325,7 +325,7 @@ def gen_history(rng, nsteps, allow_catch, allow_shallow=True):
 class Env:
     def __init__(self):
         import ctl_sched
-        self.dir = tempfile.mkdtemp(prefix="c02-")
+        self.dir = tempfile.mkdtemp(prefix="c02-", dir=("/dev/shm" if os.access("/dev/shm", os.W_OK) else None))   # sqlite commits: tmpfs if there is one
         self.nhist = 0
         # an empty, migrated backend: copied for every history and for every fresh-backend oracle run
         # (running the schema migrations on each new database is 60% of the run time otherwise)
